@@ -118,12 +118,12 @@ Fixpoint set_ref (ps : list Z) (i : nat) (v : Z) : list Z :=
   | p :: r, S k => p :: set_ref r k v
   end.
 
-(* `tps[partition.id as usize]`: out of range is an index panic *)
+(* `tps.get_mut(partition.id as usize)`: ids outside 0..N are skipped *)
 Fixpoint sync_partitions (idx : list (Z * Z)) (pms : list partition_md) (ps : list Z) : res (list Z) :=
   match pms with
   | [] => Ok ps
   | pm :: r =>
-      if (pm_id pm <? 0) || (ulen ps <=? pm_id pm) then Panic (tag "index out of bounds")
+      if (pm_id pm <? 0) || (ulen ps <=? pm_id pm) then sync_partitions idx r ps
       else
         let v := match assoc_z (pm_leader pm) idx with Some i => i | None => UNKNOWN_BROKER_INDEX end in
         sync_partitions idx r (set_ref ps (Z.to_nat (pm_id pm)) v)
